@@ -418,7 +418,7 @@ impl<'a> FnCx<'a> {
             owner: owner.to_string(),
             ret: sig.ret.clone(),
             scopes: vec![vec![]],
-            pub(crate) used: BTreeSet::new(),
+            used: BTreeSet::new(),
             aliases: vec![BTreeMap::new()],
             subst: vec![],
             shift_vars: BTreeSet::new(),
@@ -427,6 +427,7 @@ impl<'a> FnCx<'a> {
         };
         cx.used.insert("p".into());
         cx.used.insert("ε".into());
+        cx.used.insert("E".into());
         let mut params = vec![];
         for (n, t) in &sig.params {
             let ln = cx.bind(n, t.clone());
